@@ -48,6 +48,7 @@ package ice
 // alive timer; further incoming connections never do.
 //@ enumerate C15 calls ice.(*tcpPacketConn).ClearAliveTimer in (*TCPMuxDefault).GetConnByUfrag
 //@ enumerate C15 stores ice.tcpPacketConn.aliveTimer in newTCPPacketConn
+//@ enumerate C13 C15 stores ice.tcpPacketConn.handedOut in (*TCPMuxDefault).GetConnByUfrag
 // ClearAliveTimer only stops the timer; Reset on a stopped AfterFunc timer re-arms it. Once a handle
 // has been given out the timer must stay dead, so the alive timer is never re-armed anywhere.
 //@ enumerate C13 C15 calls time.(*Timer).Reset@ice.tcpPacketConn.aliveTimer in nowhere
@@ -77,7 +78,14 @@ package ice
 //@   ghostvar foundOpen bool = false
 //@   site call isClosed#1 ghost foundOpen := !result
 //@   site call createConn#1 ghost createdNow := true
-//@   site call newSharedPacketConn#1 assert C15 C13 a-handle-is-handed-out-only-on-an-open-connection: createdNow || foundOpen
+//@   ghostvar hadHandles bool = false
+//@   ghostvar retained bool = false
+//@   site call isClosed#1 ghost hadHandles := conn.handedOut
+//@   site call retainShared#1 assume reference-counter-not-exhausted: conn.refs < 2147483647
+//@   site call retainShared#1 assert C15 C13 retains-a-reference-of-the-connection-found: *arg0 == conn.refs && foundOpen && hadHandles
+//@   site call retainShared#1 ghost retained := result
+//@   site call newSharedPacketConn#1 assert C15 C13 a-handle-is-handed-out-only-on-a-connection-just-created-never-handed-out-before-or-kept-alive-by-a-retained-reference: createdNow || (foundOpen && (!hadHandles || retained))
+//@   site store handedOut#1 assert C15 C13 marks-the-connection-it-hands-out: object == conn && value == true
 //@   site call newSharedPacketConn#1 assert hands-out-a-handle-on-that-connection: arg0.payload == conn
 //@   ghostvar closedUnderLock bool = false
 //@   site call Lock#1 ghost after closedUnderLock := m.closed
